@@ -134,6 +134,9 @@ int main(int argc, char** argv) {
     else if (hc_is(0, "print")) { volatile long long r = -1; HC_TRY(r = print_to(f, 0, "%li ", $I(hc_int(2)))); emit("print", o, hc_int(2), 0, hc_exc, r); }
     /* numbers written with a zero-padded width and read back through the Int's own look (%$): decimal, whatever the padding */
     else if (hc_is(0, "printz")) { volatile long long r = -1; HC_TRY(r = print_to(f, 0, "%05li ", $I(hc_int(2)))); emit("printz", o, hc_int(2), 0, hc_exc, r); }
+    /* a literal per cent sign in the format, written and read back: "%li%% " */
+    else if (hc_is(0, "printp")) { volatile long long r = -1; HC_TRY(r = print_to(f, 0, "%li%% ", $I(hc_int(2)))); emit("printp", o, hc_int(2), 0, hc_exc, r); }
+    else if (hc_is(0, "scanp")) { var v = $I(-1); HC_TRY(scan_from(f, 0, "%li%% ", v)); emit("scanp", o, 0, 0, hc_exc, c_int(v)); }
     else if (hc_is(0, "scanshow")) { var v = $I(-1); HC_TRY(scan_from(f, 0, "%$ ", v)); emit("scan", o, 0, 0, hc_exc, c_int(v)); }
     else if (hc_is(0, "scan")) { var v = $I(-1); HC_TRY(scan_from(f, 0, "%li ", v)); emit("scan", o, 0, 0, hc_exc, c_int(v)); }
     else if (hc_is(0, "del")) { HC_TRY(del_raw(f)); fobj[o] = NULL; emit("del", o, 0, 0, hc_exc, 0); }
